@@ -58,6 +58,9 @@ func runProto(pc *ProtoCase, o protoOpts) (labels map[string]bool, excluded map[
 		conns[i] = srv.connect(fmt.Sprintf("client%d", i))
 	}
 	errs := make([]error, len(pc.Conns))
+	if o.counters && len(pc.Conns) == 1 {
+		pc.Conns[0].midCheck = true
+	}
 	if o.concurrent && len(pc.Conns) > 1 {
 		var wg sync.WaitGroup
 		var mu sync.Mutex
